@@ -11,4 +11,49 @@ pub(crate) mod verif_peek {
 	pub fn set_poisoned<L>(p: &Poisonable<L>) {
 		p.poisoned.poison();
 	}
+
+	/// Kani function contracts on PoisonFlag (attributes attached by T3)
+	#[cfg(verif_contracts)]
+	mod contract_proofs {
+		use super::super::*;
+
+		#[kani::proof_for_contract(PoisonFlag::is_poisoned)]
+		fn c10_q_contract_flag_is_poisoned() {
+			let f = PoisonFlag::new();
+			if kani::any() {
+				f.0.store(true, std::sync::atomic::Ordering::Relaxed);
+			}
+			let _ = f.is_poisoned();
+		}
+		#[kani::proof_for_contract(PoisonFlag::poison)]
+		fn c10_q_contract_flag_poison() {
+			let f = PoisonFlag::new();
+			if kani::any() {
+				f.0.store(true, std::sync::atomic::Ordering::Relaxed);
+			}
+			f.poison();
+		}
+		#[kani::proof_for_contract(PoisonFlag::clear_poison)]
+		fn c10_q_contract_flag_clear_poison() {
+			let f = PoisonFlag::new();
+			if kani::any() {
+				f.0.store(true, std::sync::atomic::Ordering::Relaxed);
+			}
+			f.clear_poison();
+		}
+		/// Poisonable's public flag API against the CONTRACTS of PoisonFlag
+		#[kani::proof]
+		#[kani::stub_verified(PoisonFlag::is_poisoned)]
+		#[kani::stub_verified(PoisonFlag::poison)]
+		#[kani::stub_verified(PoisonFlag::clear_poison)]
+		fn c10_q_contract_poisonable_flag_api() {
+			let p = Poisonable::new(0u8);
+			assert!(!p.is_poisoned(), "C10_fresh_poisonable_is_not_poisoned");
+			p.poisoned.poison();
+			assert!(p.is_poisoned(), "C10_poison_sets");
+			p.clear_poison();
+			assert!(!p.is_poisoned(), "C10_clear_poison_clears");
+			kani::cover!(true, "end");
+		}
+	}
 }
